@@ -159,6 +159,8 @@ type verifFake struct {
 	failAll bool          // connection broken: every request fails, nothing is applied
 	crashAt int           // >= 0: requests beyond this many logged ones fail and are not applied
 	tagOf   func(cmd string, args []interface{}) int
+	onReq   func(n int) // called with the ordinal (1-based) of each incoming request before it is processed
+	nReq    int
 }
 
 var verifErrConn = errors.New("fakeredis: connection lost")
@@ -311,6 +313,10 @@ func (f *verifFake) apply(r verifReq) interface{} {
 
 // request processes one request as the server would and returns its reply.
 func (f *verifFake) request(cmd string, args []interface{}) (interface{}, error) {
+	f.nReq++
+	if f.onReq != nil {
+		f.onReq(f.nReq)
+	}
 	if f.failAll || (f.crashAt >= 0 && len(f.log) >= f.crashAt) {
 		f.failAll = true
 		return nil, verifErrConn
